@@ -21,10 +21,10 @@ Proved via the ledger invariant `LInv` (Lemmas/FsReqLemmas): `no_double_free_hol
 `path_lifetime_async_holds`, `path_borrowed_sync_holds` (with the path invariant `PInv`).
 
 REFUTED as stated (witness: a failed answer with errno 0): `stat_ptr_stmt_false`, `dir_handed_over_stmt_false`; the corrected
-`stat_ptr_nz_stmt` (answers never fail with errno 0) is proved: `stat_ptr_nz_holds`; `dir_handed_over_nz_stmt` is NOT yet proved and
-stays a `def … : Prop`
+`stat_ptr_nz_stmt`, `dir_handed_over_nz_stmt` (answers never fail with errno 0) are proved: `stat_ptr_nz_holds`,
+`dir_handed_over_nz_holds`.  Nothing is left unproved in this file
 (`result_normalised_stmt` is proved: `result_normalised_holds`).
-What is missing for it: a per-phase fact tying `result = 0` to the handed-over directory blocks under `AnswersNonzero`.  checks/c11.py still evaluates every statement on the model's output and on the real code's log for every
+checks/c11.py still evaluates every statement on the model's output and on the real code's log for every
 generated life cycle. -/
 
 def no_double_free_stmt : Prop := ∀ (a : Args) (evs : List Ev), (run a evs).l.badFree = 0
@@ -271,9 +271,30 @@ theorem dir_handed_over_stmt_false : ¬ dir_handed_over_stmt := by
   revert this
   decide +kernel
 
-/-- corrected statement (not yet proved) -/
+/-- corrected statement (proved below) -/
 def dir_handed_over_nz_stmt : Prop := ∀ (a : Args) (evs : List Ev), AnswersNonzero a evs →
   a.op = .opendir → (run a evs).phase = .done →
   (run a evs).l.userOwned = (if (run a evs).req.result = 0 then 2 else 0)
+
+/-- a completed uv_fs_opendir holds the caller's `uv_dir_t` + `DIR` (2 blocks) exactly when it reports success — also after
+    any number of cleanups — and nothing when it failed or was cancelled -/
+theorem dir_handed_over_nz_holds : dir_handed_over_nz_stmt := by
+  intro a evs hnz ho hd
+  have hnz0 : Outcome.fail 0 ∉ a.outs := fun h => hnz (by unfold answers; exact List.mem_append_left _ h)
+  have hev : ∀ e, e ∈ evs → ∀ os, e = .work os → Outcome.fail 0 ∉ os := by
+    intro e he os heq h
+    apply hnz
+    unfold answers
+    apply List.mem_append_right
+    rw [List.mem_flatMap]
+    exact ⟨e, he, by subst heq; exact h⟩
+  have key : LInv a (run a evs) ∧ PInv a (run a evs) ∧ DInv a (run a evs) :=
+    run_induct_mem a (fun s => LInv a s ∧ PInv a s ∧ DInv a s) evs
+      ⟨linv_init a, ⟨fun _ => rfl, by simp [init], by simp [init], by simp [init]⟩, fun hp => by simp [init] at hp⟩
+      (fun s e he ⟨h1, h2, h3⟩ => ⟨linv_step a s e h1, pinv_step a s e h2, dinv_step a ho s e hnz0 (hev e he) h1 h2 h3⟩)
+  exact key.2.2 (Or.inr hd)
+
+example : (run ⟨.opendir, true, false, 0, true, false, 1, 0, []⟩ [.submit, .work [.ok 0], .done, .cleanup, .cleanup]).l.userOwned = 2 ∧
+          (run ⟨.opendir, true, false, 0, true, false, 1, 0, []⟩ [.submit, .cancel, .done, .cleanup]).l.userOwned = 0 := by decide +kernel
 
 end UvModel.FsReq
